@@ -85,6 +85,18 @@ def run(prop, tier, seed):
         sc["tree"]["p.diff"] = ("R", 0o644, text)
         sc["single_fmt"] = fmts[0] if fmts and all(x["fmt"] == fmts[0] for x in sc["secs"]) else None
         combined.append(sc)
+    for _ in range(nl2 // 4):
+        # a section whose first hunk line reads like a file header, followed by another section
+        fm = rng.choice(["unified", "unified", "git"])
+        sa = scen.headerlike_section(rng, rng.choice(["h1", "hd/h1"]), fmt=fm)
+        sb = scen.section(rng, "h2", kind="change", fmt=fm, nonl=False)
+        sc = scen.base_scenario(rng, [sa, sb] if rng.random() < 0.7 else [sb, sa], opts={})
+        text = streams.filler(rng)
+        for x in sc["secs"]:
+            text += x["text"] + streams.filler_after(rng, x)
+        sc["tree"]["p.diff"] = ("R", 0o644, text)
+        sc["single_fmt"] = "unified" if fm == "unified" else None
+        combined.append(sc)
     res, b2, m2 = l2_family(run_, exe, combined, lambda s, r: None, cls=lambda s, r: "combined exit %d" % r["exit"], label="C11")
     l2bad = list(b2)
     for sc, r in zip(combined, res):
